@@ -257,7 +257,14 @@ impl<'e> Visitor<'e, 'e> for DepGraph<'e> {
                 None
             }
 
-            Expr::Call(Expr::Ident(id, ..), ..) if !id.name.as_str().starts_with('#') => {
+            // Any call may have side effects or fail, whatever expression the callee is (a plain
+            // identifier, a field projection, the result of another call, ...). Only the builtin
+            // `#` operators are known to be pure (`#error`, which is what an unmatched pattern
+            // compiles to, is not one of them).
+            Expr::Call(callee, ..)
+                if !matches!(callee, Expr::Ident(id, ..)
+                    if id.name.as_str().starts_with('#') && id.name.declared_name() != "#error") =>
+            {
                 for window in self
                     .currents
                     .windows(2)
